@@ -99,7 +99,7 @@ Section Theorems.
     { destruct V as (Hw' & _). congruence. }
     destruct V as (E & _ & Hm' & _ & -> & _). inversion E; subst m'. clear E.
     assert (s' = s) by congruence. subst s'.
-    unfold Dispatch.single_dispatch. rewrite is_notification_no_id, Hno, Hp. cbn [andb].
+    unfold Dispatch.single_dispatch, single_dispatch_with. rewrite is_notification_no_id, Hno, Hp. cbn [andb].
     destruct (run_target (sv_reg srv) dm s (params_of (VDict m))) as [[] log]; reflexivity.
   Qed.
 
@@ -116,7 +116,7 @@ Section Theorems.
     { destruct V as (Hw' & _). congruence. }
     destruct V as (E & _ & Hm' & _ & -> & _). inversion E; subst m'. clear E.
     assert (s' = s) by congruence. subst s'.
-    unfold Dispatch.single_dispatch. rewrite is_notification_no_id, Hno, Hp. reflexivity.
+    unfold Dispatch.single_dispatch, single_dispatch_with. rewrite is_notification_no_id, Hno, Hp. reflexivity.
   Qed.
 
   (** executing the enqueued task once is one execution of the dispatch target *)
@@ -211,7 +211,7 @@ Section Theorems.
     { destruct V as (Hw' & _). congruence. }
     destruct V as (E & _ & Hm' & _ & -> & _ & Hi). inversion E; subst m'. clear E.
     assert (s' = s) by congruence. subst s'.
-    unfold Dispatch.single_dispatch. rewrite is_notification_no_id, Hno. cbn [andb].
+    unfold Dispatch.single_dispatch, single_dispatch_with. rewrite is_notification_no_id, Hno. cbn [andb].
     rewrite Hr, Hi. destruct r; try reflexivity.
     destruct (if sv_jsonclass srv then convert v else Ok v).
     - eexists. split; [reflexivity|]. left. apply reply_code_resp.
@@ -321,7 +321,7 @@ Section Theorems.
     { destruct V as (Hw' & _). congruence. }
     destruct V as (E & _ & Hm' & _ & -> & _ & Hi). inversion E; subst m'. clear E.
     assert (s' = s) by congruence. subst s'.
-    unfold Dispatch.single_dispatch. rewrite is_notification_no_id, Hno. cbn [andb].
+    unfold Dispatch.single_dispatch, single_dispatch_with. rewrite is_notification_no_id, Hno. cbn [andb].
     cbn [Dispatch.run_target]. unfold call_dispatcher. rewrite Hb, Hi.
     eexists. split; [reflexivity|]. split.
     - apply (substrb_mid "" cls (":" ++ t)).
